@@ -244,7 +244,14 @@ func (p *Parser) WrapUntilTag(names ...string) (*NodeWrapper, *Parser, *Error) {
 						if p.Match(TokenSymbol, "%}") != nil {
 							// Okay, end the wrapping here
 							wrapper.Endtag = tagIdent.Val
-							return wrapper, newParser(p.template.name, tagArgs, p.template), nil
+							argParser := newParser(p.template.name, tagArgs, p.template)
+							if len(tagArgs) == 0 {
+								// A tag without arguments (e. g. "{% elif %}"): errors of its
+								// argument parser point at the tag's name. Without a token they
+								// would carry no position and get one of another template later.
+								argParser.lastToken = tagIdent
+							}
+							return wrapper, argParser, nil
 						}
 						t := p.Current()
 						p.Consume()
